@@ -516,7 +516,10 @@ func burst(c *lib.Ctx, st setting, bks []*backend, rng *lib.Rng, seq int) {
 		// does not say what counts as a failure, so cancelled requests widen the
 		// upper bound (and make it unknowable when retries are on).
 		upper := caused + nc
-		if nc > 0 && st.TryDuration != "0" {
+		if st.TryDuration != "0" {
+			// with retries on, an attempt can also fail inside the proxy without
+			// ever reaching the backend (e.g. the request body was consumed by the
+			// failed attempt): such failures are recorded but not observable here
 			upper = 1 << 30
 		}
 		if int(f) > upper {
